@@ -302,6 +302,62 @@ fn canonicalize(
     Ok(buf)
 }
 
+/// Turn canonical JSON text (the output of [`Json::canonicalize`]) into the
+/// byte string that in-toto signs and hashes: the OLPC canonical JSON used by
+/// the reference implementations, in which strings escape only `\\` and `"`
+/// and carry every other character verbatim. All other escape sequences
+/// inside strings (`\n`, `\t`, `\r`, `\b`, `\f`, `\u00XX`) are therefore
+/// replaced by the character they denote.
+pub(crate) fn to_signable_text(canonical: &str) -> String {
+    let mut out = String::with_capacity(canonical.len());
+    let mut chars = canonical.chars();
+    let mut in_string = false;
+    while let Some(c) = chars.next() {
+        if !in_string {
+            in_string = c == '"';
+            out.push(c);
+            continue;
+        }
+        match c {
+            '"' => {
+                in_string = false;
+                out.push(c);
+            }
+            '\\' => match chars.next() {
+                Some('b') => out.push('\u{8}'),
+                Some('f') => out.push('\u{c}'),
+                Some('n') => out.push('\n'),
+                Some('r') => out.push('\r'),
+                Some('t') => out.push('\t'),
+                Some('u') => {
+                    let digits: String = chars.by_ref().take(4).collect();
+                    let is_hex4 = digits.len() == 4
+                        && digits.bytes().all(|b| b.is_ascii_hexdigit());
+                    match u32::from_str_radix(&digits, 16)
+                        .ok()
+                        .filter(|_| is_hex4)
+                        .and_then(char::from_u32)
+                    {
+                        Some(decoded) => out.push(decoded),
+                        None => {
+                            out.push_str("\\u");
+                            out.push_str(&digits);
+                        }
+                    }
+                }
+                // `\\` and `\"` stay escaped
+                Some(other) => {
+                    out.push('\\');
+                    out.push(other);
+                }
+                None => out.push('\\'),
+            },
+            _ => out.push(c),
+        }
+    }
+    out
+}
+
 enum Value {
     Array(Vec<Value>),
     Bool(bool),
